@@ -1,0 +1,97 @@
+//! Test points and accessors for the external verification harness.
+//!
+//! Only compiled with the cargo feature `inkayaku_verif` (off by default).
+
+use std::sync::atomic::{AtomicU64, Ordering};
+use std::sync::Once;
+
+use inkayaku_board::Bitboard;
+use inkayaku_board::constants::{BISHOP, KING, KNIGHT, PAWN, QUEEN, ROOK, ZobristHash};
+
+use crate::engine::heuristic::Heuristic;
+use crate::engine::heuristic::simple::SimpleHeuristic;
+use crate::engine::search::EngineOptions;
+use crate::engine::zobrist_history::ZobristHistory;
+
+pub use crate::engine::table::verif::Table;
+
+/// White-centric value the search uses for a leaf (`Heuristic::evaluate` of the engine's heuristic).
+pub fn static_eval(bitboard: &Bitboard, legal_moves_remaining: bool) -> i32 {
+    SimpleHeuristic.evaluate(bitboard, bitboard.calculate_zobrist_pawn_hash(), legal_moves_remaining)
+}
+
+pub fn contempt() -> i32 {
+    EngineOptions::default().contempt_factor
+}
+
+/// Handle on the private repetition history.
+pub struct History(Box<ZobristHistory>);
+
+impl History {
+    pub fn new() -> Self { Self(Box::default()) }
+    pub fn set(&mut self, index: u16, zobrist_hash: ZobristHash) { self.0.set(index, zobrist_hash); }
+    pub fn count_repetitions(&self, start_index: u16, halfmove_clock: u16) -> usize { self.0.count_repetitions(start_index, halfmove_clock) }
+}
+
+impl Default for History {
+    fn default() -> Self { Self::new() }
+}
+
+// ---- search test points -------------------------------------------------------------------------
+
+static POLL_INTERVAL: AtomicU64 = AtomicU64::new(0);
+static ABORT_AT_NODE: AtomicU64 = AtomicU64::new(0);
+static LAST_ABORT_NODE: AtomicU64 = AtomicU64::new(0);
+static LAST_ABORT_PLY: AtomicU64 = AtomicU64::new(0);
+static LAST_ABORT_ITERATION: AtomicU64 = AtomicU64::new(0);
+static ENV: Once = Once::new();
+
+fn read_env() {
+    ENV.call_once(|| {
+        let get = |key: &str| std::env::var(key).ok().and_then(|v| v.trim().parse::<u64>().ok());
+        if let Some(n) = get("INKAYAKU_VERIF_POLL") { POLL_INTERVAL.store(n, Ordering::SeqCst); }
+        if let Some(n) = get("INKAYAKU_VERIF_ABORT_AT") { ABORT_AT_NODE.store(n, Ordering::SeqCst); }
+    });
+}
+
+/// Poll the mailbox / clock every `n` nodes instead of every 100 000 (0 = default behaviour).
+pub fn set_poll_interval(n: u64) { read_env(); POLL_INTERVAL.store(n, Ordering::SeqCst); }
+
+/// Behave as if the move time expired at the poll performed at node counter `n` (0 = never).
+pub fn abort_at_node(n: u64) { read_env(); ABORT_AT_NODE.store(n, Ordering::SeqCst); }
+
+pub(crate) fn should_check_flags(negamax_nodes: u64) -> Option<bool> {
+    read_env();
+    match POLL_INTERVAL.load(Ordering::SeqCst) {
+        0 => None,
+        n => Some(negamax_nodes % n == 0 && negamax_nodes > 0),
+    }
+}
+
+pub(crate) fn abort_armed_at(negamax_nodes: u64) -> bool {
+    let n = ABORT_AT_NODE.load(Ordering::SeqCst);
+    n != 0 && negamax_nodes == n
+}
+
+pub(crate) fn note_abort(negamax_nodes: u64, ply: usize, iteration: usize) {
+    if LAST_ABORT_NODE.load(Ordering::SeqCst) == 0 {
+        LAST_ABORT_NODE.store(negamax_nodes, Ordering::SeqCst);
+        LAST_ABORT_PLY.store(ply as u64, Ordering::SeqCst);
+        LAST_ABORT_ITERATION.store(iteration as u64, Ordering::SeqCst);
+    }
+}
+
+/// One line describing the search thread's board after a search and where an abort was noticed.
+pub(crate) fn dump(bitboard: &Bitboard) -> String {
+    let side = |s: &inkayaku_board::PlayerState| {
+        [PAWN, KNIGHT, BISHOP, ROOK, QUEEN, KING].iter().map(|&p| format!("{:x}", s.occupancy(p))).collect::<Vec<_>>().join(",")
+    };
+    format!(
+        "verif-board w {} b {} castle {}{}{}{} turn {} ep {} half {} full {} abort-node {} ply {} iter {}",
+        side(&bitboard.white), side(&bitboard.black),
+        u8::from(bitboard.white.king_side_castle), u8::from(bitboard.white.queen_side_castle),
+        u8::from(bitboard.black.king_side_castle), u8::from(bitboard.black.queen_side_castle),
+        bitboard.turn, bitboard.en_passant_square_shift, bitboard.halfmove_clock, bitboard.fullmove_clock,
+        LAST_ABORT_NODE.swap(0, Ordering::SeqCst), LAST_ABORT_PLY.swap(0, Ordering::SeqCst), LAST_ABORT_ITERATION.swap(0, Ordering::SeqCst),
+    )
+}
